@@ -13,6 +13,7 @@ Core Lean only.
 import Compio.Model.Common
 import Compio.Model.KeyLife
 import Compio.Gen.WithCancel
+import Compio.Model.ExtStack
 
 namespace Compio.KeyLife.Script
 
@@ -303,6 +304,8 @@ structure RtRun where
   tok : Token
   outs : List String
   slot : Nat
+  /-- `Submit::poll` finds the token in the waker's `Ext` (decided from the combinator stack and the extracted table) -/
+  sees : Bool := true
 
 /-- `CancelToken::cancel()` -/
 def rtFire (r : RtRun) : RtRun :=
@@ -321,7 +324,7 @@ def rtOp (r : RtRun) (kind : String) : RtRun :=
   else
     -- `WithCancel::poll` hands the token down through the waker (shape checked by the extractor, `Gen.WithCancel`), so
     -- `Submit::poll` sees it and registers the key
-    let (tok1, es) := if Gen.withCancelAlwaysWrapsWaker then r.tok.register id [] else (r.tok, [])
+    let (tok1, es) := if Gen.withCancelAlwaysWrapsWaker && r.sees then r.tok.register id [] else (r.tok, [])
     let r1 : RtRun := { r with sim := evs sim1 es, tok := tok1, slot := slot + 1 }
     let r2 := if kind = "r" ∧ !r.tok.fired then rtFire r1 else r1
     if kind = "k" ∧ !r.tok.fired then
@@ -341,10 +344,10 @@ def rtStep (r : RtRun) (st : String) : RtRun :=
   else if st = "F" ∨ st = "X" then rtFire r
   else r
 
-def rtCase (sim : Sim) (steps : List String) (neighbour : Bool) : Sim × String :=
+def rtCase (sim : Sim) (steps : List String) (neighbour : Bool) (nest : String := "c") : Sim × String :=
   -- the neighbour's receive (op 0, own descriptor) is submitted first and registered with nothing
   let sim := if neighbour then (exec sim ["push", "rd", "0"]).1 else sim
-  let r := steps.foldl rtStep ⟨sim, Token.new, [], 1⟩
+  let r := steps.foldl rtStep ⟨sim, Token.new, [], 1, ExtStack.tokenVisible (ExtStack.ofNest nest)⟩
   let nres := if neighbour then
       match opOf r.sim 0 with
       | some o => if o.cancelled then "c" else "t"
@@ -363,6 +366,7 @@ def stepLine (sim : Sim) (ln : String) : Sim × String :=
     | some cap => (Sim.init (if d = "poll" then Drv.poll else Drv.iour) cap, "ok | -")
     | none => (sim, "bad-op")
   | ["tok", steps, nb] => rtCase sim (steps.splitOn ",") (nb == "1")
+  | ["tok", steps, nb, nest] => rtCase sim (steps.splitOn ",") (nb == "1") nest
   | ["cfg", d, cap] =>
     match cap.toNat? with
     | some cap =>
